@@ -352,6 +352,9 @@ func (w *World) advance(f *FanState, t time.Duration) {
 	if !f.spinning && f.rpm < 1 {
 		f.rpm = 0
 	}
+	if p.MinRpm > 0 && f.rpm < float64(p.MinRpm) {
+		f.rpm = float64(p.MinRpm)
+	}
 }
 
 func (w *World) refreshRpm(f *FanState) {
